@@ -109,3 +109,66 @@ class adsr:
         if err or len(got) != len(exp) or any(abs(float(g) - float(x)) > 1e-9 for g, x in zip(got, exp)):
             return "adsr%r = %r (%s); expected %r" % ((str(dur), str(a), str(d), str(s), str(r)), got, err, [str(v) for v in exp])
         return None
+
+
+class simple:
+    """fadein / fadeout / attack / white_noise / rint against the closed forms of the statement"""
+    @staticmethod
+    def candidates(hints):
+        for dur in DURS:
+            yield {"f": "fadein", "dur": str(dur)}
+            yield {"f": "fadeout", "dur": str(dur)}
+            for lo, hi in (("-1", "1"), ("0", "1/2"), ("2", "2")):
+                yield {"f": "white_noise", "dur": str(dur), "low": lo, "high": hi}
+        yield {"f": "white_noise", "dur": None, "low": "-1", "high": "1"}
+        for a, d, s in itertools.product([F(1), F(2), F(3, 2), F(5, 2)], [F(1), F(2), F(7, 2)], [F(1, 2), F(0), F(3, 4)]):
+            yield {"f": "attack", "a": str(a), "d": str(d), "s": str(s)}
+        for k in range(-12, 13):
+            yield {"f": "rint", "x": str(F(k, 4))}
+
+    @staticmethod
+    def check(inp):
+        import audiolazy
+        f = inp["f"]
+        if f in ("fadein", "fadeout"):
+            dur = F(inp["dur"])
+            n = max(int(dur + F(1, 2)), 0)
+            if dur == 0 and n > 0:
+                return None
+            b, e = (F(0), F(1)) if f == "fadein" else (F(1), F(0))
+            exp = [b + i * (e - b) / dur for i in range(n)]
+            got, err = take_all(getattr(audiolazy, f)(dur))
+            if err or len(got) != n or any(abs(float(g) - float(x)) > 1e-9 for g, x in zip(got, exp)):
+                return "%s(%s) = %r (%s); property says %r" % (f, dur, got, err, [str(v) for v in exp])
+            return None
+        if f == "white_noise":
+            lo, hi = F(inp["low"]), F(inp["high"])
+            if inp["dur"] is None:
+                got, err = take_all(audiolazy.white_noise(low=float(lo), high=float(hi)), limit=30)
+                ok = err == "endless"
+                n = 30
+            else:
+                dur = F(inp["dur"])
+                from audiolazy.lazy_misc import rint as real_rint
+                n = max(int(dur + F(1, 2)) if dur >= 0 else 0, 0)   # rint(dur) for dur >= 0: half away from zero
+                got, err = take_all(audiolazy.white_noise(dur, low=float(lo), high=float(hi)))
+                ok = err is None
+            if not ok or len(got) != n or any(not (float(lo) <= g <= float(hi)) for g in got):
+                return "white_noise(%s, %s, %s) gave %d samples (%s) %r; property says %d samples within [low, high]" % (inp["dur"], lo, hi, len(got), err, got[:5], n)
+            return None
+        if f == "attack":
+            a, d, s = F(inp["a"]), F(inp["d"]), F(inp["s"])
+            la, ld = int(a + F(1, 2)), int(d + F(1, 2))
+            exp = [i / a for i in range(la)] + [1 + i * (s - 1) / d for i in range(ld)] + [s] * 10
+            got, err = take_all(audiolazy.attack(a, d, s), limit=len(exp))
+            if err != "endless" or any(abs(float(g) - float(x)) > 1e-9 for g, x in zip(got, exp)):
+                return "attack(%s, %s, %s) = %r (%s); expected %r then endless sustain" % (a, d, s, got, err, [str(v) for v in exp])
+            return None
+        if f == "rint":
+            from audiolazy.lazy_misc import rint as real
+            x = F(inp["x"])
+            exp = int(x + F(1, 2)) if x >= 0 else -int(-x + F(1, 2))
+            got = outcome(lambda: real(float(x)))
+            if got != ("ok", exp):
+                return "rint(%s) = %r; nearest integer, halves away from zero, is %d" % (x, got, exp)
+            return None
